@@ -313,3 +313,19 @@ PROPS["C05"] = dict(
     min_labels=dict(quick=dict(replace_or_delete_of_shared_value=2500, put_idx_over_occupied_slot=700, failed_transfer=5000, cascade=8000, userdata_replaced=8000, deep_copy=5000, pointer_set=4000, patch=5000)),
     assumptions=["histories follow the documented ownership rules; misuse (double put, cycles) is outside the property"],
 )
+
+PROPS["C08"] = dict(
+    harness="C08_oom.cpp", level="fault_enumeration",
+    technique="fault enumeration over generated workloads: each workload runs once fault-free under a counting allocator (link-time --wrap of malloc/calloc/realloc/strdup/vasprintf/newlocale/duplocale), then once per allocation index with exactly that call failing, plus sampled double faults; differential oracle against the fault-free result, caller-owned objects dumped before/after, exact live-allocation accounting, ASan/UBSan",
+    level_text="for every generated workload (one-shot, chunked and convenience parse, tokener creation, tree construction, object add incl. table growth and "
+               "replacement, array add/put/insert incl. growth, set_string growth, deep copy, first and repeated serialisation under a flag set, pointer "
+               "set/setf/get/getf, patch in both forms, fd read, double format) EVERY allocation index k is failed in turn: the operation must either give "
+               "exactly its fault-free result or report failure through its channel (NULL, negative/zero return, out-of-memory status); objects the "
+               "caller owns must dump identically and stay usable; no allocation may remain live after release",
+    level_note="exhaustive per workload over the allocation index (single faults); workloads themselves are sampled; wrapped entry points are the ones json-c calls directly (glibc-internal allocations are not failed)",
+    rule="one evaluation = one workload with all its allocation indices (labels fault_reported + fault_absorbed count the individual faulted runs); non-trivial = the workload has at least one fault index > 0 (partial state to unwind) - counted per workload, distinct by workload hash; the number of individual faulted runs is labels.fault_reported + labels.fault_absorbed",
+    quick=[dict(mode="faults", cases=4000, workers=8, maxbytes=2000)],
+    thorough=[dict(mode="faults", cases=300000, workers=16, maxbytes=4000), dict(mode="faults", fuzz=True, secs=300, jobs=8, max_len=512)],
+    min_labels=dict(quick=dict(fault_reported=12000, fault_absorbed=500, double_fault=3000, parse=200, serialize=150, patch_inplace=80, object_add=150)),
+    assumptions=["only allocation calls made directly by json-c are failed", "at most 3000 indices per workload"],
+)
